@@ -1,16 +1,16 @@
 #!/bin/bash
-# process_seeds2.sh P : round-2 agent output /tmp/out2-P, worktree /tmp/wt2-P ; registers P-3, P-4
-P=$1
+# process_seeds2.sh P : round-2 agent output /tmp/out${R}-P, worktree /tmp/wt${R}-P ; registers P-3, P-4
+P=$1; R=${2:-2}; OFF=${3:-2}
 for n in 1 2; do
-  [ -f /tmp/out2-$P/change_$n.diff ] || continue
-  id=$P-$((n+2))
+  [ -f /tmp/out${R}-$P/change_$n.diff ] || continue
+  id=$P-$((n+OFF))
   echo "#### $id"
-  if [ -f /tmp/wt2-$P/crates/lexgen/tests/seeded_demo_$n.rs ]; then
-    /verif/lib/confirm_seed.sh /tmp/wt2-$P /tmp/out2-$P/change_$n.diff seeded_demo_$n 2>&1 | grep -E "^==|test result|passed=|DOES NOT|could not compile" > /tmp/confirm-$id.txt
+  if [ -f /tmp/wt${R}-$P/crates/lexgen/tests/seeded_demo_$n.rs ]; then
+    /verif/lib/confirm_seed.sh /tmp/wt${R}-$P /tmp/out${R}-$P/change_$n.diff seeded_demo_$n 2>&1 | grep -E "^==|test result|passed=|DOES NOT|could not compile" > /tmp/confirm-$id.txt
   else
     echo "demo is not an in-tree test: confirm manually" > /tmp/confirm-$id.txt
   fi
   cat /tmp/confirm-$id.txt
-  /verif/lib/add_seed.py $id $P /tmp/out2-$P $n -
+  /verif/lib/add_seed.py $id $P /tmp/out${R}-$P $n -
   cp /tmp/confirm-$id.txt /verif/seeded/$id/confirmation.txt
 done
